@@ -9,5 +9,5 @@ for p in "$@"; do
   echo "=== $p with $(basename $(dirname $patch))/$(basename $patch)"
   ./check "$p" --tier "${TIER:-quick}" 2>&1 | tail -${TAIL:-4}
 done
-git -C /repo checkout -- .
+git -C /repo checkout -- . && git -C /repo clean -fdq
 git -C /repo status --short | head -3
